@@ -392,6 +392,8 @@ def finish(ctx, level_note='', assumptions=(), extra_cov=None):
         f = [x for x in ctx.findings if x['id'] == k['id']][0]
         print('KNOWN-FINDING: property=%s %s' % (prop, f['what']))
     for v in ctx.violations:
+        # the reason first (the harness that runs the checks keeps stdout), then the line of the interface
+        print('REASON: %s' % str(v['clause'])[:600].replace('\n', ' '))
         print('VIOLATION property=%s replay=%s%s' % (prop, v['replay'], ' no-failing-input-found' if v['nofail'] else ''))
     pre = 'QsmtpModel.Props.%s.' % prop
     thms = sorted(t[len(pre):] for t in ctx.theorems)
